@@ -1,5 +1,5 @@
 (* C09 — writer output does not depend on how the same document is presented.  Statements only. *)
-From Ebml Require Import Base Tools Spec Writer Reader Pure Encode Proofs.Tactics Proofs.SpecProofs Proofs.WriterProofs Proofs.RoundTrip Proofs.WriteEnc Proofs.WriteFull Proofs.WriteMixed Proofs.WriteScripts Proofs.AuditWriter.
+From Ebml Require Import Base Tools Spec Writer Reader Pure Encode Proofs.Tactics Proofs.SpecProofs Proofs.WriterProofs Proofs.RoundTrip Proofs.WriteEnc Proofs.WriteFull Proofs.WriteMixed Proofs.WriteEncG Proofs.WriteScripts Proofs.AuditWriter.
 
 (* the deprecated unknown-size call is the option-based one *)
 Theorem C09_deprecated : forall sp st t, wstep sp st (OpWriteUnknown t) = wstep sp st (OpWrite t {| o_len := None; o_unknown := true |}).
@@ -197,4 +197,77 @@ Proof.
   split; [apply C09_full_equals_separate; [apply c09_full_conf; right; reflexivity|exact c09_all_known]|].
   split; [apply C09_mixed_encodes; apply c09_mixed_conf|].
   split; [apply C09_separate_calls_encode; exact c09_sep_wide_conf|vm_compute; reflexivity].
+Qed.
+
+(* ------------------------------------------------------------------ declared paths with global placeholders
+   The whole-document statements above use the conformance [wconf] / [fconf] / [pconf] of placeholder-free paths.  With
+   [wconfg] / [fconfg] / [pconfg] (Proofs/WriteEncG.v) a declared path only has to MATCH the chain of open masters, so global
+   elements at any depth and recursive masters are covered: whatever the presentation (any mix of Full items and separate
+   calls, [pres]), every call succeeds and the bytes are the structural encoding ... *)
+Theorem C09_mixed_encodes_global : forall sp d f ps, pconfg_forest sp d [] f ps ->
+  Forall (fun r => fst r = WOk) (fst (run_writer sp (pops_forest d f ps) [])) /\
+  snd (run_writer sp (pops_forest d f ps) []) = enc_forest f.
+Proof. exact mixed_encodes_g. Qed.
+
+(* ... hence any two presentations of the same document give byte-identical output *)
+Theorem C09_presentation_irrelevant_global : forall sp d f ps1 ps2, pconfg_forest sp d [] f ps1 -> pconfg_forest sp d [] f ps2 ->
+  snd (run_writer sp (pops_forest d f ps1) []) = snd (run_writer sp (pops_forest d f ps2) []).
+Proof. exact presentation_irrelevant_g. Qed.
+
+(* the placeholder-free conformance is a special case *)
+Theorem C09_pconf_is_pconfg : forall sp d t ids p, pconf sp d ids t p -> pconfg sp d ids t p.
+Proof. intros sp d t ids p. apply pconf_pconfg. Qed.
+
+(* Root(129) { Void(236, declared (-)); Rec(130, declared Root/(-)) { Void } } written as one Full item (1 call), as Start Root /
+   Void / Full Rec / End Root (4 calls) and call by call (6 calls): the three presentations conform and give the structural
+   encoding *)
+Definition C09g_sp : spec :=
+  [ {| e_id := 129; e_ty := DMaster; e_path := [] |}; {| e_id := 130; e_ty := DMaster; e_path := [PId 129; PGlobal None None] |};
+    {| e_id := 236; e_ty := DBinary; e_path := [PGlobal None None] |} ].
+Definition C09g_void : rtree := RLeaf 236 (VB [0]) [0] 1%nat.
+Definition C09g_rec : rtree := RNode 130 (Some 1%nat) [ C09g_void ].
+Definition C09g_doc : list rtree := [ RNode 129 (Some 1%nat) [ C09g_void; C09g_rec ] ].
+Definition C09g_p1 : list pres := [].
+Definition C09g_p2 : list pres := [PSep [PFull; PFull]].
+Definition C09g_p3 : list pres := map all_sep C09g_doc.
+Lemma C09g_void_ok ids : path_matches [PGlobal None None] ids = true -> wconfg C09g_sp true ids C09g_void.
+Proof.
+  intros Hp. unfold C09g_void. cbn [wconfg]. split; [exact Hp|]. exists DBinary. split; [reflexivity|]. split; [discriminate|].
+  split; [vm_compute; tauto|]. split; [reflexivity|]. unfold field_ok. split; [lia|]. split; [vm_compute; reflexivity|]. intros _. vm_compute. reflexivity.
+Qed.
+Ltac c09g_fok := let sl := fresh "sl" in let E := fresh "E" in
+  intros sl E; injection E as <-; unfold field_ok; split; [lia|]; split; [vm_compute; reflexivity|intros _; vm_compute; reflexivity].
+Lemma C09g_rec_w : wconfg C09g_sp true [129] C09g_rec.
+Proof.
+  unfold C09g_rec. cbn [wconfg]. split; [vm_compute; reflexivity|]. split; [reflexivity|]. split; [c09g_fok|].
+  split; [apply C09g_void_ok; vm_compute; reflexivity|exact I].
+Qed.
+Lemma C09g_rec_f : fconfg C09g_sp true [129] C09g_rec.
+Proof.
+  unfold C09g_rec. cbn [fconfg]. split; [vm_compute; reflexivity|]. split; [reflexivity|]. split; [c09g_fok|].
+  split; [constructor; [apply C09g_void_ok; vm_compute; reflexivity|constructor]|]. constructor; [exact I|constructor].
+Qed.
+Example C09_ex_global :
+  pconfg_forest C09g_sp true [] C09g_doc C09g_p1 /\ pconfg_forest C09g_sp true [] C09g_doc C09g_p2 /\ pconfg_forest C09g_sp true [] C09g_doc C09g_p3 /\
+  snd (run_writer C09g_sp (pops_forest true C09g_doc C09g_p1) []) = enc_forest C09g_doc /\
+  snd (run_writer C09g_sp (pops_forest true C09g_doc C09g_p2) []) = enc_forest C09g_doc /\
+  snd (run_writer C09g_sp (pops_forest true C09g_doc C09g_p3) []) = enc_forest C09g_doc /\
+  map (@length wop) [pops_forest true C09g_doc C09g_p1; pops_forest true C09g_doc C09g_p2; pops_forest true C09g_doc C09g_p3] = [1; 4; 6]%nat.
+Proof.
+  assert (V1 : wconfg C09g_sp true [129] C09g_void) by (apply C09g_void_ok; vm_compute; reflexivity).
+  split.
+  { unfold C09g_doc, C09g_p1. cbn [pconfg_forest phd tl]. split; [|exact I]. rewrite pconfg_full. cbn [fconfg].
+    split; [vm_compute; reflexivity|]. split; [reflexivity|]. split; [c09g_fok|].
+    split; [constructor; [exact V1|constructor; [exact C09g_rec_w|constructor]]|]. constructor; [exact I|constructor; [|constructor]]. apply all_known_node. split; [discriminate|repeat constructor]. }
+  split.
+  { unfold C09g_doc, C09g_p2. cbn [pconfg_forest phd tl]. split; [|exact I]. apply pconfg_sep.
+    split; [vm_compute; reflexivity|]. split; [reflexivity|]. split; [c09g_fok|].
+    cbn [pconfg_forest phd tl app]. split; [exact V1|]. split; [|exact I]. exact C09g_rec_f. }
+  split.
+  { unfold C09g_doc, C09g_p3, C09g_rec, C09g_void. cbn [map all_sep]. cbn [pconfg_forest phd tl]. split; [|exact I]. apply pconfg_sep.
+    split; [vm_compute; reflexivity|]. split; [reflexivity|]. split; [c09g_fok|].
+    cbn [pconfg_forest phd tl app]. split; [exact V1|]. split; [|exact I]. apply pconfg_sep.
+    split; [vm_compute; reflexivity|]. split; [reflexivity|]. split; [c09g_fok|].
+    cbn [pconfg_forest phd tl app]. split; [|exact I]. apply C09g_void_ok. vm_compute. reflexivity. }
+  vm_compute. repeat split; reflexivity.
 Qed.
